@@ -220,7 +220,7 @@ func c13Check(b c13Batch) []vlib.Violation {
 
 func c13GenConfig(f smodel.Format) smodel.GenConfig {
 	cfg := smodel.DefaultGenConfig(f)
-	cfg.Focus = []string{"array_ref", "map_ref", "map_scalar", "map_struct", "array_struct", "nullable_ref", "nullable_scalar", "enum_ref", "enum_anon", "any", "union_structs", "datetime", "array_nested", "anon_struct", "union_scalars"}
+	cfg.Focus = []string{"array_ref", "map_ref", "map_scalar", "map_struct", "array_struct", "nullable_ref", "nullable_scalar", "enum_ref", "enum_anon", "any", "union_structs", "datetime", "array_nested", "anon_struct", "union_scalars", "ref_named_collection", "map_nested", "array_named_collection"}
 	return cfg
 }
 
